@@ -550,7 +550,8 @@ func (g *gen) tags() []uint32 {
 }
 
 var dataFlags = []uint64{0, 0, 0, 0, uint64(com.FlagProxy), uint64(com.FlagError), uint64(com.FlagChannel), uint64(com.FlagChannelEnd),
-	uint64(com.FlagProxy | com.FlagError), 1 << 9, 1 << 15, uint64(com.FlagChannel | com.FlagError)}
+	uint64(com.FlagProxy | com.FlagError), 1 << 9, 1 << 15, uint64(com.FlagChannel | com.FlagError),
+	uint64(com.FlagCrypt), uint64(com.FlagCrypt | com.FlagError)}
 
 func (g *gen) dev(own int, foreign []int, pOwn, pEmpty int) int {
 	x := g.r.Intn(100)
@@ -578,13 +579,18 @@ func (g *gen) dataPkt(own int, foreign []int, sizes []string) gp {
 	p := gp{ID: uint8(7 + g.r.Intn(249)), Job: g.nextJob(), Dev: g.dev(own, foreign, 60, 10), Flags: dataFlags[g.r.Intn(len(dataFlags))],
 		Tags: g.tags(), Seed: g.r.U64()}
 	p.Len = g.sizeOf(sizes[g.r.Intn(len(sizes))], len(p.Tags))
+	if p.Flags&uint64(com.FlagCrypt) != 0 {
+		// key material: the payload of such a packet belongs to the peer's key machinery
+		// (Listener.notify -> keyCryptAndUpdate reads it), not to the handlers: empty here
+		p.Len = 0
+	}
 	return p
 }
 
 // a run of k fragments (positions 0..k-1) of a group that has more than k fragments
 func (g *gen) fragRun(dev int, group uint16, k int, sizes []string) []gp {
 	id, job, total := uint8(7+g.r.Intn(249)), g.nextJob(), k+1+g.r.Intn(3)
-	base := dataFlags[g.r.Intn(len(dataFlags))] &^ uint64(com.FlagChannel|com.FlagChannelEnd)
+	base := dataFlags[g.r.Intn(len(dataFlags))] &^ uint64(com.FlagChannel|com.FlagChannelEnd|com.FlagCrypt)
 	r := make([]gp, k)
 	for i := range r {
 		var f com.Flag = com.Flag(base)
@@ -700,6 +706,29 @@ func main() {
 		f.SetLen(1)
 		add("corpus-frag-len1", 1, nil, false, 0, mk(7, 1, 0, 4), mk(10, 1, uint64(f), 9), mk(8, 1, 0, 4))
 	}
+	// a picked packet of our own that carries key material (FlagCrypt) is sent alone, the rest stays queued,
+	// state.Last is not reset on that path
+	{
+		cr := uint64(com.FlagCrypt)
+		sm := []string{"1", "1k"}
+		add("corpus-crypt", 1, nil, false, 0, mk(7, 1, cr, 0), mk(8, 1, 0, 4), mk(9, 1, 0, 4))
+		add("corpus-crypt", 1, []int{2}, false, 0, mk(7, 1, cr, 0), mk(8, 2, 0, 4), mk(9, 1, 0, 4))
+		add("corpus-crypt", 1, []int{2}, false, 0, mk(7, 2, cr, 0), mk(8, 1, 0, 4), mk(9, 1, 0, 4))
+		add("corpus-crypt", 1, nil, false, 0, mk(7, 0, cr, 0), mk(8, 1, 0, 4))
+		add("corpus-crypt", 1, nil, false, 0, mk(8, 1, 0, 4), mk(7, 1, cr, 0), mk(9, 1, 0, 4))
+		add("corpus-crypt", 1, nil, false, 0, mk(7, 1, cr, 0), mk(8, 1, cr, 0), mk(9, 1, cr, 0), mk(10, 1, 0, 4))
+		add("corpus-crypt", 1, nil, false, 0, mk(7, 1, cr, 0), nopOf(1), nopOf(1))
+		add("corpus-crypt", 1, nil, false, 0, nopOf(1), mk(7, 1, cr, 0), mk(8, 1, 0, 1))
+		add("corpus-crypt", 1, nil, false, 0, mk(7, 1, cr, 0))
+		// the key-material packet does not fit, is carried over, and is then sent alone
+		add("corpus-crypt", 1, nil, false, 0, mk(7, 1, 0, lenForSize(F-40, 0)), mk(8, 1, cr, 0), mk(9, 1, 0, 5))
+		r2 := g.fragRun(1, 600, 2, sm)
+		add("corpus-crypt", 1, nil, false, 600, append(append([]gp{mk(7, 1, cr, 0)}, r2...), mk(8, 1, 0, 4))...)
+		add("corpus-crypt", 1, nil, false, 600, append(append([]gp{mk(7, 1, cr, 0), mk(11, 1, cr, 0)}, r2...), mk(8, 1, 0, 4))...)
+		// the abandoned group belongs to another device and follows the key-material packet
+		add("corpus-crypt", 1, []int{2}, false, 600, append(append([]gp{mk(7, 1, cr, 0)}, g.fragRun(2, 600, 2, sm)...), mk(9, 1, 0, 4))...)
+		add("corpus-crypt", 1, []int{2}, false, 600, append(append([]gp{mk(7, 2, cr, 0)}, r2...), mk(9, 1, 0, 4))...)
+	}
 	// proxy tags and packet tags
 	run(qcase{Own: 1, Reg: []int{1, 2}, HasProxy: true, PTags: []uint32{11, 12}, Class: "corpus-tags",
 		Q: []gp{mk(7, 1, 0, 4), {ID: 8, Job: 99, Dev: 2, Tags: []uint32{12, 13}, Len: 7, Seed: 5}, mk(9, 1, 0, 4)}})
@@ -711,6 +740,8 @@ func main() {
 		Q: []gp{{ID: 8, Job: 99, Dev: 1, Tags: []uint32{12, 13, 12}, Len: 7, Seed: 5}}})
 	run(qcase{Own: 1, Reg: []int{1, 2}, HasProxy: true, PTags: []uint32{3}, Class: "corpus-tags", Q: []gp{mk(7, 1, 0, 4)}})
 	run(qcase{Own: 1, Reg: []int{1, 2}, HasProxy: true, PTags: []uint32{3}, Class: "corpus-tags", Q: nil})
+	run(qcase{Own: 1, Reg: []int{1, 2}, HasProxy: true, PTags: []uint32{3, 4}, Class: "corpus-crypt",
+		Q: []gp{mk(7, 1, uint64(com.FlagCrypt), 0), mk(8, 2, 0, 4), mk(9, 1, 0, 4)}})
 
 	// ---- keep-alives in every position of a short queue (exhaustive over masks)
 	for n := 1; n <= 4; n++ {
@@ -735,7 +766,7 @@ func main() {
 	// ---- random structured queues
 	nrand := 450
 	if thorough {
-		nrand = 6000
+		nrand = 5000
 	}
 	profiles := [][]string{
 		{"0", "1", "1k"},
